@@ -11,6 +11,12 @@ Lemma regexes_pinned : gen_regexes =
     ("BinInt", "0[bB][01]+"); ("OctInt", "0[0-7]*"); ("WS", "[ \t\r\f]+"); ("Comment", "#[^\n]*") ].
 Proof. reflexivity. Qed.
 
+(* ... and the header scanner (lex_header): names are maximal runs of anything but space, TAB, CR, FF, LF *)
+Lemma header_regexes_pinned :
+  gen_header_regexes = [ ("SignalName", "[^ \t\r\f\n]+"); ("WS", "[ \t\r\f]+") ] /\
+  gen_header_tokens = [ ("Eol", "\n") ].
+Proof. split; reflexivity. Qed.
+
 (* every punctuation token declared in the source is what the scanner produces for that text ... *)
 Lemma punct_tokens_lexed : forallb (fun p =>
     match lex_one ((s2n (fst p) ++ [32%N])%list) with
